@@ -103,6 +103,12 @@ func checkC08(w *World, r *Recorder) propInfo {
 	for _, g := range gates {
 		c08Gate(w, r, g, prep)
 	}
+	// G4: like their non-validating siblings, the validating encoders return fresh memory
+	for _, n := range []string{"ValidateAndEncodeClaimsToCBOR", "ValidateAndEncodeClaimsToJSON"} {
+		if fn := w.Root.Func(n); fn != nil {
+			ruleResultFresh(w, r, "C08-G4", fn, n, 0)
+		}
+	}
 	r.Floor("C08-G1", 8)
 	r.Floor("C08-G2", 8)
 	r.Floor("C08-G3", 7)
